@@ -10,7 +10,8 @@ from core.rng import SemanticRandom, installed
 class C05(Prop):
     pid = "C05"
     rule = ("distributions with 1-6 distinct tuple keys over 1-4 topologies, unnormalised integer weights, motif sizes 1-5 (size 1 forced "
-            "in 25% of cases), N 1-60; the weighted key draws and the uniform vertex picks are scripted as events, through whichever function of `random` they are drawn; "
+            "in 25% of cases), N 1-60; keys of Python or NumPy integers; in 15% of cases the loader first holds and samples another distribution "
+            "whose dictionary is then edited in place; the weighted key draws and the uniform vertex picks are scripted as events, through whichever function of `random` they are drawn; "
             "non-trivial = at least one column needed patching; distinct = distinct case")
     assumptions = ["random.choices(population, weights, k) draws i.i.d. in proportion to the weights and random.randrange is uniform "
                    "(stdlib; only the arguments handed to them are checked)"]
